@@ -24,7 +24,7 @@ BT = {'buildable': fdl.Buildable, 'config': fdl.Config, 'partial': fdl.Partial}
 
 
 def selection(root, op):
-  return selectors.select(root, H.FNS[op['fn']], match_subclasses=bool(op['sub']),
+  return selectors.select(root, H.fn_obj(op['fn']), match_subclasses=bool(op['sub']),
                           buildable_type=BT[op['bt']])
 
 
@@ -96,8 +96,17 @@ def work(lines):
   for line in lines:
     rec = common.decode_line(line)
     stats['lines'] += 1
-    for f, msg in check_line(rec):
-      mismatches.append((f, {'heap': rec['heap'], 'op': rec['op'], 'message': msg[:700]}))
+    for variant in (0, 1):
+      # variant 1: callable 1 is a classmethod (equal, never identical, on each access)
+      if variant == 1 and not any(o['fn'] == 1 for o in rec['heap']):
+        continue
+      H.FN_VARIANT = variant
+      try:
+        for f, msg in check_line(rec):
+          mismatches.append((dict(f, callable_variant=variant),
+                             {'heap': rec['heap'], 'op': rec['op'], 'message': msg[:700]}))
+      finally:
+        H.FN_VARIANT = 0
     if rec['post'] != rec['heap'] or rec['ret']:
       stats['nontrivial'] += 1
     if sample is None and rec['op']['name'] == 'replace' and rec['post'] != rec['heap']:
